@@ -363,8 +363,12 @@ impl<'a> Gen<'a> {
 const SEPS: [&str; 10] = [" ", " ", "  ", ", ", ";", ".", "-", "\n", "!? ", "\t"];
 const WORDS: [&str; 10] = ["aa", "bb", "ab", "Aa", "x", "c_1", "BB", "zz9", "aA", "b"];
 const OOV: [&str; 4] = ["qq", "new", "Zz", "y"];
-const UWORDS: [&str; 12] = ["\u{c9}cole", "e\u{301}cole", "\u{e9}cole", "\u{ff46}\u{ff55}\u{ff4c}\u{ff4c}", "full", "\u{fb01}ne", "fine",
-                            "x\u{b2}", "\u{1c5}a", "stra\u{df}e", "\u{130}stanbul", "\u{3a3}\u{3a3}"];
+// the last eight: characters WITHOUT a lower-case mapping whose compatibility decomposition contains upper-case
+// letters (TELEPHONE SIGN -> "TEL", NUMERO SIGN -> "No", TRADE MARK -> "TM", double-struck R N, SQUARE MHZ -> "MHz")
+// next to their plain lower-case spellings: normalise-then-lower-case and lower-case-then-normalise differ on them
+const UWORDS: [&str; 20] = ["\u{c9}cole", "e\u{301}cole", "\u{e9}cole", "\u{ff46}\u{ff55}\u{ff4c}\u{ff4c}", "full", "\u{fb01}ne", "fine",
+                            "x\u{b2}", "\u{1c5}a", "stra\u{df}e", "\u{130}stanbul", "\u{3a3}\u{3a3}",
+                            "\u{2121}", "tel", "\u{2116}", "no", "\u{2122}", "tm", "\u{211d}\u{2115}", "\u{3392}"];
 
 fn doc_from(r: &mut Sm64, words: &[&str], len: usize, seps: &[&str]) -> String {
     let mut s = String::new();
